@@ -244,6 +244,9 @@ func validOperation(operation string) bool {
 }
 
 func validateNutsCredentialID(credential vc.VerifiableCredential) error {
+	if credential.ID == nil {
+		return fmt.Errorf("%w: 'ID' is required", errValidation)
+	}
 	id, err := resolver.GetDIDFromURL(credential.ID.String())
 	if err != nil {
 		return err
